@@ -71,12 +71,14 @@ CHECKS = {
     "C08": dict(cat="translation_validation", tech="Lean 4: reference semantics of the Python subset by compilation to micro-code (validated path-exhaustively against CPython) + verified simulation checker (pySim_sound) between the function and the real front end's CFG; CPython runs of both; census",
                 text="Scfg/Py/Micro.lean gives the supported subset (incl. and/or, comparison chains, call arguments, for/while/else, break/continue/return) a reference semantics whose abstract values are reaching definitions, so the state space is finite and Scfg.C08.pySim_sound turns one successful certificate check into equal event traces for ALL decision sequences. "
                      "For every generated function the real front end's CFG is abstracted and compared with the function this way; both are also executed natively by CPython (the CFG through a block-by-block interpreter) on every decision sequence up to depth 7, which also validates the Lean semantics; pruning is censused by statement identity. "
-                     "Failing programs are classified semantically by variant semantics reproducing the known deviations (eager and/or hoisting, for-target preset).", ref="§7 C08",
+                     "Failing programs are classified semantically by variant semantics reproducing the known deviations (eager and/or hoisting, for-target preset). "
+                     "Scfg/Model/Ast2Cfg.lean is an executable model of the front end itself (handle_expression, handle_bool_op, if/while/for lowering, sealing, the three pruning passes); its blocks must equal the abstraction of the real ASTCFG block for block.", ref="§7 C08",
                 note="Trusted: Lean kernel + standard axioms; harness/pysem.py (abstraction of ast); the reaching-definition abstraction and the truthiness-memo policy (identical in the CPython oracle); atoms do not raise. "
                      "When the product exceeds 200 000 pairs the Lean verdict is 'inconclusive' and the bounded CPython comparison decides (counted in evidence)."),
     "C07": dict(cat="translation_validation", tech="Lean 4: verified simulation checker (pySim_sound) between the reference semantics of the original and of the regenerated function; CPython runs of both on every decision sequence up to a bound; exception class and compile check of the real pipeline",
                 text="Every generated function goes through the real AST2SCFG → restructure → SCFG2AST. The pipeline may raise NotImplementedError and nothing else; the regenerated source must compile; original and regenerated function are abstracted and compared by the Lean certificate checker (equal traces for ALL decision sequences, Scfg.C08.pySim_sound) and executed natively by CPython on every decision sequence up to depth 7. "
-                     "Differences are classified semantically against the variant semantics of the known front-end deviations; crashes by the precondition they need in the front end's own CFG.", ref="§7 C07",
+                     "Differences are classified semantically against the variant semantics of the known front-end deviations; crashes by the precondition they need in the front end's own CFG. "
+                     "Scfg.Model.roundtrip chains the Lean models of the front end, of restructuring and of code generation (Scfg/Model/Cfg2Ast.lean); its output (or abort class) must equal the real regenerated function token for token.", ref="§7 C07",
                 note="As C08. Arguments are symbolic (oracle values), so 'for every argument tuple' is covered up to the oracle's adversarial truthiness/iteration decisions; exceptions raised by atoms are not modelled."),
     "C10": dict(cat="translation_validation", tech="Lean 4: multiset census decider with soundness theorem (census_sound) on tags collected by object identity from the restructured graph and from the generated tree; compile and hygiene of the unparsed text; two routes (source pipeline, arbitrary restructured closed CFGs with AST payloads)",
                 text="For every accepted function and for every restructured closed CFG with synthetic AST payloads, the statements, tests and control-variable assignments of the graph and those present in the generated tree are collected by object identity and compared by the Lean predicate sameMultiset (Scfg.C10.census_sound: equal multiplicity of every tag — nothing dropped, duplicated or foreign); the unparsed text must compile and bind no new name outside the reserved __scfg_…__ namespace.", ref="§7 C10",
